@@ -36,10 +36,14 @@ class DynCase:
             w.items.append("item-file.dat")
             w.filters.append(None)
             self.victim = os.path.join(w.src, "item-file.dat")
-            w.items.append("item9")
-            w.filters.append(None)
-            os.makedirs(os.path.join(w.src, "item9"))
-            w.write_file(os.path.join(w.src, "item9", "after"), b"after the top-level file " * 20)
+        # a later item (configuration order is the walk order) holding a file with the victim's ORIGINAL content: if the run registers
+        # a hash it never stores, this file is the one that ends up referring to it
+        w.items.append("item9")
+        w.filters.append(None)
+        os.makedirs(os.path.join(w.src, "item9"))
+        w.write_file(os.path.join(w.src, "item9", "after"), b"after the victim " * 20)
+        if size:
+            w.write_file(os.path.join(w.src, "item9", "copy-of-original"), data)
         w.write_file(self.victim, data)
         w.write_config()
         self.victim = os.path.realpath(self.victim)
@@ -88,7 +92,7 @@ def evaluate(case, r, rules, label):
     newest = finals[-1] if finals else None
     expected_count = (1 if case.previous else 0) + 1
     if len(finals) != expected_count:
-        return ("C15", "%s: the run did not publish a backup (exit %d): %s" % (label, r["exit"], slevel.errors_of(r["out"])[:2]))
+        return ("C15 C03", "%s: the run did not publish a backup (exit %d): %s" % (label, r["exit"], slevel.errors_of(r["out"])[:2]))
     g, b = newest
     ent = [e for gg in dec["groups"] if gg["name"] == g for e in gg["entries"] if e["name"] == b][0]
     lines = runs.parse_manifest(ent)
@@ -97,7 +101,7 @@ def evaluate(case, r, rules, label):
         return ("C15", "%s: the published backup does not decode (manifest or archive broken)" % label)
     files = [x for x in arch["entries"] if x["type"] == "file"]
     if len(files) != len(lines):
-        return ("C10", "%s: %d regular-file archive entries but %d manifest lines" % (label, len(files), len(lines)))
+        return ("C10 C15", "%s: %d regular-file archive entries but %d manifest lines" % (label, len(files), len(lines)))
     # hashes stored earlier in the group (for extern lines)
     earlier = set()
     for gg in dec["groups"]:
@@ -112,20 +116,20 @@ def evaluate(case, r, rules, label):
     for l, x in zip(lines, files):
         path = bytes.fromhex(x["path_hex"])
         if os.fsencode(l["path"]).lstrip(b"/") != path.lstrip(b"/") and l["path"].lstrip(b"/") != path.lstrip(b"/"):
-            return ("C10", "%s: manifest line %r and archive entry %r are not in the same order" % (label, l["path"], path))
+            return ("C10 C15", "%s: manifest line %r and archive entry %r are not in the same order" % (label, l["path"], path))
         if l["unique"]:
             if "data_hex" not in x:
                 continue
             data = bytes.fromhex(x["data_hex"])
             if l["size"] > len(data) or sha512(data[:l["size"]]) != l["hash"]:
-                return ("C10", "%s: the unique line of %r says size=%d hash=%s.. but the first %d bytes of its archive entry (%d bytes) hash to %s.."
+                return ("C10 C15", "%s: the unique line of %r says size=%d hash=%s.. but the first %d bytes of its archive entry (%d bytes) hash to %s.."
                         % (label, l["path"], l["size"], l["hash"][:12], l["size"], len(data), sha512(data[:l["size"]])[:12]))
             earlier.add((l["hash"], l["size"]))
         else:
             if x["data_len"] != 0:
-                return ("C10", "%s: the extern line of %r has a non-empty archive entry" % (label, l["path"]))
+                return ("C10 C15", "%s: the extern line of %r has a non-empty archive entry" % (label, l["path"]))
             if l["size"] != 0 and (l["hash"], l["size"]) not in earlier:
-                return ("C15", "%s: the extern line of %r refers to content (hash %s.., size %d) that no earlier record of the group stores"
+                return ("C15 C02", "%s: the extern line of %r refers to content (hash %s.., size %d) that no earlier record of the group stores"
                         % (label, l["path"], l["hash"][:12], l["size"]))
         recorded[l["path"]] = l
     # restore with the real tool
@@ -133,7 +137,7 @@ def evaluate(case, r, rules, label):
     shutil.rmtree(out, ignore_errors=True)
     rc, text = sb.vsb(["restore", os.path.join(w.st, g, b), out])
     if rc != 0:
-        return ("C15", "%s: the published backup does not restore: `vsb restore` exits %d: %s" % (label, rc, slevel.errors_of(text)[:2]))
+        return ("C15 C02", "%s: the published backup does not restore: `vsb restore` exits %d: %s" % (label, rc, slevel.errors_of(text)[:2]))
     tree = slevel.scan(out)
     orig = slevel.scan(case.src_copy)
     vrel = case.victim.lstrip("/")
@@ -218,14 +222,16 @@ def schedules(size, counts):
     return out
 
 
-def sweep(ctx, rng, budget, report):
-    """report: set of property ids whose clauses are reported by the calling check.  budget None = everything."""
+def sweep(ctx, rng, budget, report, focus=None):
+    """report: set of property ids whose clauses are reported by the calling check.  budget None = everything.
+    focus: optional predicate on (size, where, previous, rules) selecting the schedules of interest"""
     combos = [(s, w, p) for s in SIZES for w in ("nested", "top") for p in (None, "shortcut", "touched")]
     todo = []
     for size, where, previous in combos:
         counts = reference_counts(ctx, rng, size, where, previous)
         for rules in schedules(size, counts):
-            todo.append((size, where, previous, rules))
+            if focus is None or focus(size, where, previous, rules):
+                todo.append((size, where, previous, rules))
     ctx.count("dyn.schedules_total", len(todo))
     if budget is not None and len(todo) > budget:
         # keep the mix: two-step schedules and read points are where the reader's logic lives
@@ -248,7 +254,7 @@ def sweep(ctx, rng, budget, report):
             if r["fired"]:
                 ctx.nontrivial.add((size, where, previous, tuple(rules)))
             pr = evaluate(case, r, rules, label)
-            if pr and pr[0] in report:
+            if pr and set(pr[0].split()) & set(report):
                 ctx.violation("dynamic", pr[1], {"size": size, "where": where, "previous": previous, "rules": [list(x) for x in rules], "exit": r["exit"],
                                                  "fired": r["fired"], "output": r["out"][-600:]})
                 if len(ctx.violations) >= 3:
@@ -264,4 +270,4 @@ def replay_case(ctx, doc, report):
         pr = evaluate(case, r, rules, "replay")
         print("fired:", r["fired"], "exit:", r["exit"])
         print("verdict:", pr)
-        return 1 if pr and pr[0] in report else 0
+        return 1 if pr and set(pr[0].split()) & set(report) else 0
